@@ -9,6 +9,10 @@ CLAIMED = {
         technique="deterministic simulation: seeded fault-injecting io.Reader / fs.FS (chunking, short and zero reads, EOF and I/O error at every byte offset) around the real parser, compared with one-shot delivery",
         text="Seeded exploration of stream deliveries of every D2 script the repository carries (plus UTF-16 transcodings and byte mutations): chunked, truncated at every offset, failing at every offset, and imported through a chunking/failing fs.FS. Decides only the stream-delivery slice of C01: Parse terminates, does not crash, and returns the same tree and errors however the bytes arrive. Sampling, not proof.",
         note="Trusted: the harness's comparison via d2ast JSON; the corpus harvested from the repository. Not covered: the input-space half of C01 beyond corpus+mutations, and ParseKey/ParseMapKey/ParseValue (string arguments, no stream)."),
+    "C48": dict(engine="crashsim", cat="fault_enumeration", ref="5.3",
+        technique="deterministic simulation with crash injection: the real CLI runs in-process over syscall-level fault points; every recorded file-system operation (and 3 offsets inside every write) is enumerated as a kill point with crash-freeze, then the target file is compared with its old and new content",
+        text="Per generated scenario the crash points are enumerated completely (every file-system system call of the command, plus inside each write), so for the sampled inputs the statement is decided exhaustively; inputs (sizes 28 B - 2 MiB, fmt and single-board render, output present/absent/longer/shorter) are sampled by seed.",
+        note="Trusted: the std-library overlay that places the fault points at syscall wrappers; crash-freeze as a model of SIGKILL (cross-checked with strace-injected SIGKILL in the thorough tier when available); power-loss durability is out of scope (property says 'killed')."),
 }
 
 PENDING = {
@@ -17,7 +21,6 @@ PENDING = {
  "C44": "simulation target per DESIGN.md §5.1 (watchsim); its check is still under construction and therefore not claimed yet",
  "C45": "simulation target per DESIGN.md §5.1 (watchsim); its check is still under construction and therefore not claimed yet",
  "C46": "simulation target per DESIGN.md §5.2 (bundlesim); its check is still under construction and therefore not claimed yet",
- "C48": "simulation target per DESIGN.md §5.3 (crashsim); its check is still under construction and therefore not claimed yet",
 }
 
 NA_COMMON = "pure function of its input: the anchored code is synchronous, single-goroutine, reads no clock and does no fallible I/O, so there is no schedule, time or fault for a simulator to own"
